@@ -320,7 +320,9 @@ func (w *world) nodeObject() *corev1.Node {
 		"nvidia.com/gpu":      *resource.NewQuantity(capCentiGPU/100, resource.DecimalSI),
 	}
 	return &corev1.Node{
-		ObjectMeta: metav1.ObjectMeta{Name: nodeName, UID: types.UID("node-uid"), Labels: map[string]string{"nvidia.com/gpu.count": "1"}},
+		// a re-created node gets a new UID: waitInformers compares objects, an identical re-creation would be
+		// indistinguishable from the not-yet-processed deletion of its predecessor
+		ObjectMeta: metav1.ObjectMeta{Name: nodeName, UID: types.UID(fmt.Sprintf("node-uid-%d", w.flips)), Labels: map[string]string{"nvidia.com/gpu.count": "1"}},
 		Status: corev1.NodeStatus{Capacity: rl, Allocatable: rl.DeepCopy(),
 			Conditions: []corev1.NodeCondition{{Type: corev1.NodeReady, Status: corev1.ConditionTrue}}},
 	}
